@@ -102,7 +102,7 @@ pub fn unknown<S: Src>(s: &mut S) {
 
 fn draw_item<S: Src>(s: &mut S) -> ItemCfg<260> {
     let type_ = s.u8();
-    let value = Text::<260>::draw_len_utf8(s, 260);
+    let value = Text::<260>::draw_len(s, 260);
     let prefix = Blob::<260>::draw_len(s, 260);
     ItemCfg { type_, value, prefix }
 }
@@ -120,7 +120,9 @@ fn draw_chunk<S: Src, const NI: usize>(s: &mut S) -> ChunkCfg<NI, 260> {
 }
 
 pub fn sdes_item<S: Src>(s: &mut S) {
-    let it = draw_item(s);
+    let mut it = draw_item(s);
+    // multi-byte characters: byte length and character count differ
+    it.value = Text::<260>::draw_len_utf8(s, 260);
     let b = it.builder();
     // SdesItemBuilder has its own public write_into; its size is not public: the announced
     // size is the one carried by OutputTooSmall / returned on success
